@@ -10,26 +10,26 @@ ASSUMPTIONS = [
     '-DNDEBUG build',
 ]
 OUTSIDE = ['MUMPS variants (not built)', 'grids larger than listed', 'rounding / dynamic range']
-BOUNDS = {'quick': 'solve: (5,4,2) (6,4,3) (9,8,auto) both modes, both strategies, T in {1,3}; matrix: (5,4,2) (6,4,3) (7,8,3) (9,8,auto)',
+BOUNDS = {'quick': 'solve: (5,4,2) (6,4,3) (9,8,auto) (7,12,3: ntheta % 3 = 0, not a power of two) both modes, both strategies, T in {1,3}; matrix: (5,4,2) (6,4,3) (7,8,3) (9,8,auto)',
           'thorough': 'solve + (7,8,3) (8,8,4) (9,16,auto); matrix on nr 5..9 x ntheta {4,8,12}'}
 
 
 def jobs(tier, seed):
     J = []
     q = tier == 'quick'
-    for (nr, nt, nC) in ([(5, 4, 2), (6, 4, 3), (9, 8, -1)] if q else [(5, 4, 2), (6, 4, 3), (7, 8, 3), (8, 8, 4), (9, 8, -1), (9, 16, -1)]):
+    for (nr, nt, nC) in ([(5, 4, 2), (6, 4, 3), (9, 8, -1), (7, 12, 3)] if q else [(5, 4, 2), (6, 4, 3), (7, 8, 3), (8, 8, 4), (9, 8, -1), (9, 16, -1), (7, 12, 3), (6, 6, 2)]):
         for dirbc in (0, 1):
             for strat in (0, 1):
                 for T in (1, 3):
-                    if q and nr == 9 and (T == 3) != (strat == 1):
+                    if q and nr in (9, 7) and (T == 3) != (strat == 1):
                         continue
                     v = (dirbc + strat) % 2
                     J.append(dict(entry='h_solve', args=[nr, nt, nC, dirbc, strat, T, v], label=f'solve {nr}x{nt} nC={nC} dirbc={dirbc} strategy={strat} T={T}', cls='solve',
                                   reach=['factorised', 'solved'], eager=False, diff=(nr <= 6 and T == 1), batch=16, witness=False))
-    for (nr, nt, nC) in ([(5, 4, 2), (6, 4, 3), (7, 8, 3), (9, 8, -1)] if q else [(nr, nt, nC) for nr in (5, 6, 7, 8, 9) for nt in (4, 8, 12) for nC in (2, 3, -1) if nC < nr - 2]):
+    for (nr, nt, nC) in ([(5, 4, 2), (6, 4, 3), (7, 8, 3), (9, 8, -1), (7, 12, 3)] if q else [(nr, nt, nC) for nr in (5, 6, 7, 8, 9) for nt in (4, 8, 12) for nC in (2, 3, -1) if nC < nr - 2]):
         for dirbc in (0, 1):
             for strat in (0, 1):
-                T = 1 if (nr + dirbc + strat) % 2 else 3
+                T = 3 if (nt % 3 == 0 or (nr + dirbc + strat) % 2 == 0) else 1
                 J.append(dict(entry='h_matrix', args=[nr, nt, nC, dirbc, strat, T], label=f'matrix {nr}x{nt} nC={nC} dirbc={dirbc} strategy={strat} T={T}', cls='matrix',
                               reach=['assembled'], eager=False, diff=(nr == 5)))
     return J
